@@ -36,8 +36,12 @@ CONSTANTS
 ConstOK == /\ Kind \in {"det", "stress"}
            /\ H \in Int /\ H >= 0
            /\ \A N \in Rates : N \in Int /\ N >= 0
-           /\ Kind = "det" => 0 \notin Rates
+           /\ Kind \in {"det"} => 0 \notin Rates   \* written with \in: Apalache reads an equality `Kind = "det"` anywhere
+                                                  \* inside a --cinit predicate as a binding of the constant
            /\ Rejectable \subseteq Profiles
+           \* found by the induction step: a refused first configuration leaves rate 1, which TypeOK only admits
+           \* if some configurable rate is stored as 1 (true in every cfg: Rejectable = {} or 1 \in Rates)
+           /\ \A p \in Rejectable : \E N \in Rates : N = 1 \/ (N = 0 /\ Kind \in {"stress"})
            /\ ExtremeFrom \in Int /\ ExtremeFrom >= 1
 
 VARIABLES
